@@ -6,7 +6,7 @@ import (
 	"encoding/json"
 	"fmt"
 	"os"
-	"reflect"
+	"strconv"
 	"strings"
 	"sync"
 	"sync/atomic"
@@ -175,6 +175,13 @@ func (ev *evaluator) runGenChunk(cases []genCase, caseTimeoutS int) map[string]*
 	return out
 }
 
+func envInt(name string, def int) int {
+	if v, err := strconv.Atoi(os.Getenv(name)); err == nil && v > 0 {
+		return v
+	}
+	return def
+}
+
 // libFrames extracts the library frames of a goroutine dump (bounded).
 func libFrames(dump string) string {
 	var fr []string
@@ -237,7 +244,7 @@ func (ev *evaluator) Evaluate(cases []evalCase, chunk int) map[string]*evalResul
 		go func(gc []genCase) {
 			defer wg.Done()
 			defer func() { <-sem }()
-			o := ev.runGenChunk(gc, 0)
+			o := ev.runGenChunk(gc, envInt("C18_BATCH_TIMEOUT_S", 20))
 			gmu.Lock()
 			for k, v := range o {
 				gens[k] = v
@@ -248,23 +255,46 @@ func (ev *evaluator) Evaluate(cases []evalCase, chunk int) map[string]*evalResul
 	wg.Wait()
 	tGen := time.Now()
 	// a watchdog alone is not a verdict: run the case again on its own with a longer limit
+	confirmS := envInt("C18_CONFIRM_TIMEOUT_S", 60)
+	var cwg sync.WaitGroup
+	type wd struct {
+		c    evalCase
+		s, k string
+	}
+	var wds []wd
 	for _, c := range todo {
 		for _, s := range c.Styles {
 			k := pairKey(c.ID, s)
 			if g := gens[k]; g != nil && g.Watchdog {
-				again := ev.runGenChunk([]genCase{{ID: c.ID, Spec: c.Spec, Styles: []string{s}}}, 60)[k]
-				if again != nil && again.Watchdog && strings.Contains(again.Dump, "internal/schema") {
-					again.Dump = "ran 20 s in a batch and 60 s alone without returning; goroutine dump: " + again.Dump
-					gens[k] = again
-				} else if again != nil && !again.Watchdog {
-					gens[k] = again
-					r.Count("watchdog_not_reproduced", 1)
-				} else {
-					gens[k] = &genOut{Incon: "generation watchdog fired without library frames in the dump"}
-				}
+				wds = append(wds, wd{c, s, k})
 			}
 		}
 	}
+	for _, w := range wds {
+		{
+			c, s, k := w.c, w.s, w.k
+			cwg.Add(1)
+			sem <- struct{}{}
+			go func(c evalCase, s, k string) {
+				defer cwg.Done()
+				defer func() { <-sem }()
+				again := ev.runGenChunk([]genCase{{ID: c.ID, Spec: c.Spec, Styles: []string{s}}}, confirmS)[k]
+				gmu.Lock()
+				defer gmu.Unlock()
+				switch {
+				case again != nil && again.Watchdog && strings.Contains(again.Dump, "internal/schema"):
+					again.Dump = fmt.Sprintf("did not return within %d s in a batch nor within %d s alone; goroutine dump: %s", envInt("C18_BATCH_TIMEOUT_S", 20), confirmS, again.Dump)
+					gens[k] = again
+				case again != nil && !again.Watchdog:
+					gens[k] = again
+					r.Count("watchdog_not_reproduced", 1)
+				default:
+					gens[k] = &genOut{Incon: "generation watchdog fired without library frames in the dump"}
+				}
+			}(c, s, k)
+		}
+	}
+	cwg.Wait()
 
 	// 2. values and oracle questions
 	type job struct {
@@ -310,7 +340,6 @@ func (ev *evaluator) Evaluate(cases []evalCase, chunk int) map[string]*evalResul
 			}
 			res.Schema = g.Schema
 			jobs = append(jobs, job{c: c, style: s, res: res})
-			_ = deep
 		}
 		// keep the deep instance for the names oracle
 		for _, s := range c.Styles {
@@ -403,5 +432,3 @@ func (ev *evaluator) Evaluate(cases []evalCase, chunk int) map[string]*evalResul
 	ev.cacheMu.Unlock()
 	return results
 }
-
-var _ = reflect.TypeOf
